@@ -228,6 +228,36 @@ func init() {
 			}
 			c.RequireGuards("C29d", apps, "retry-append", FactHas("epoch-still-in-memory", "conv<int64>(param#0) <= ", ".relaySession.Epoch)"))
 		}
+		c.Rule("C29e snapshot handling: the snapshot is read back into memory exactly when a chain's DB is first registered (restoreRewardsFromDB is called only by AddDataBase, past the false outcome of DBExists: a later restore would overwrite newer in-memory proofs with the older snapshotted ones and re-install claimed proofs); a whole epoch is dropped from the snapshot (DeleteEpochRewards) only past epoch < earliest-saved-epoch, i.e. when it can no longer be claimed — never while a claim for it may still fail and be retried after a restart")
+		const rsv = "protocol/rpcprovider/rewardserver."
+		c.RequireCallers("C29e", rsv+"RewardServer.restoreRewardsFromDB", rsv+"RewardServer.AddDataBase")
+		if adb := c.Fn(rsv + "RewardServer.AddDataBase"); adb != nil {
+			c.RequireGuards("C29e", c.CallsByName(adb, false, rsv+"RewardServer.restoreRewardsFromDB"), "restore", CallIs(false, rsv+"RewardDB.DBExists"))
+		}
+		nDel := 0
+		var delSites []Site
+		if der := c.Fn(rsv + "RewardDB.DeleteEpochRewards"); der != nil {
+			delSites = c.References(der)
+		}
+		for _, ds := range delSites {
+			fn := ds.Fn
+			if !inProd(fn) {
+				continue
+			}
+			sites := []Site{ds}
+			nDel += len(sites)
+			c.RequireGuards("C29e", sites, "drop-epoch-from-snapshot", GuardSpec{Name: "epoch<earliest-saved-epoch", Match: func(g ir.Guard) bool {
+				x, op, y, ok := splitCmp(g.Fact)
+				if !ok || op != "<" {
+					return false
+				}
+				return strings.HasPrefix(x, "next(range(") && strings.HasSuffix(x, "#1") &&
+					(y == "param#2" && ir.FuncName(fn) == rsv+"RewardServer.gatherRewardsForClaim" || strings.HasPrefix(y, "call("+rsv+"RewardServer.getEarliestBlockInMemoryWithRetry)("))
+			}})
+		}
+		if nDel < 2 {
+			c.Undecided("C29e: expected the two DeleteEpochRewards sites (gatherRewardsForClaim, restoreRewardsFromDB), found %d", nDel)
+		}
 		c.NotCovered("restart/snapshot histories (crash points); DB persistence; timing of the claim loop")
 	})
 }
